@@ -17,7 +17,7 @@ import common as C
 
 CLASSES = [None, None, "fetch_star", "fetch_comma", "fetch_star_first", "fetch_reversed", "fetch_beyond",
            None, "search_star", "search_comma", "search_star_first", "search_reversed",
-           "search_beyond", "search_huge", "uidsearch_shape", None, None, "noop_notices", "deleted_case"]
+           "search_beyond", "search_huge", "uidsearch_shape", None, None, "noop_notices", None]
 MSG = "From: a@example.com\r\nTo: b@example.com\r\nSubject: t\r\n\r\nbody\r\n"
 
 # ---------------------------------------------------------------- ASTs
